@@ -458,10 +458,8 @@ class IntervalTier(textgrid_tier.TextgridTier):
         )
         collisionReporter = utils.getErrorReporter(collisionReportingMode)
 
-        if not isinstance(entry, Interval):
-            interval = Interval(*entry)
-        else:
-            interval = entry
+        # Labels are stored without surrounding whitespace, as the constructor does
+        interval = Interval(entry[0], entry[1], entry[2].strip())
 
         matchList = self.crop(
             interval.start, interval.end, CropCollision.LAX, False
